@@ -75,7 +75,7 @@ def features(decls):
 
 
 REQUIRED_FEATURES = {
-    "decl:struct", "decl:enum", "decl:impl", "decl:service", "decl:device",
+    "decl:struct", "decl:enum", "decl:impl", "decl:service", "decl:device", "decl:mod",
     "type:u", "type:i", "type:f32", "type:f64", "type:str", "type:struct", "type:enum",
     "type:arr", "type:dyn", "type:opt", "param:unit", "param:range", "param:unit+range",
     "impl:renamed", "impl:extension-field", "impl:signal-block",
